@@ -1,4 +1,5 @@
-import FxVerif.Proofs.C03Attest
+import FxVerif.Proofs.C03View
+import FxVerif.Proofs.C03Prog
 
 /-!
 # C03 — the executed event is field-for-field the event the quorum voted for
@@ -86,6 +87,15 @@ theorem interface_reads_hashed :
     ∀ f ∈ externalClaimReads, f ∈ MsgSendToFxClaim.hashedFields ∧ f ∈ MsgBridgeCallClaim.hashedFields
       ∧ f ∈ MsgBridgeCallResultClaim.hashedFields ∧ f ∈ MsgSendToExternalClaim.hashedFields
       ∧ f ∈ MsgBridgeTokenClaim.hashedFields ∧ f ∈ MsgOracleSetUpdatedClaim.hashedFields := by decide
+
+/-- the two type switches that decide when a claim runs (REGENERATED case lists of `AttestationHandler` and `ExecuteClaim`):
+every claim type is either stored for `ExecuteClaim` or handled at once, never both and none forgotten; `ExecuteClaim` can
+run exactly the stored types (a stored claim of a type it cannot run would stay pending for ever) — the model's `deferred`
+is this table -/
+theorem dispatch_covers :
+    (∀ t ∈ claimTypes, (t ∈ storedTypes ∨ t ∈ immediateTypes) ∧ ¬ (t ∈ storedTypes ∧ t ∈ immediateTypes))
+    ∧ (∀ t ∈ storedTypes ++ immediateTypes, t ∈ claimTypes)
+    ∧ (∀ t ∈ storedTypes, t ∈ runnableTypes) ∧ (∀ t ∈ runnableTypes, t ∈ storedTypes) := by decide
 
 /-- the one struct field that is not demanded of the hash, `MsgBridgeTokenClaim.Name`, is indeed never read by the keeper -/
 theorem bridgeToken_name_never_read : "Name" ∉ MsgBridgeTokenClaim.readFields := by decide
@@ -404,6 +414,22 @@ theorem pending_is_voted {η : Type} [DecidableEq η] (H : Str → η) (le : η 
   obtain ⟨hn, e, he, hec⟩ := (pendInv_run attestTrySites (fun c => H c.path) le ops {} pendInv_init).1 p hp
   exact ⟨hn, e, he, hec, fun v hv => hec ▸ executed_is_voted H le ops valid collisionFree e he v hv⟩
 
+/-- `TryAttestation` also records the external block height of the claim object it is handed
+(`SetLastObservedBlockHeight(claim.GetBlockHeight())`): after every history, the recorded height is the one EVERY tallied
+voter of the last observed attestation reported -/
+theorem observed_height_is_voted {η : Type} [DecidableEq η] (H : Str → η) (le : η → η → Bool) (ops : List Op)
+    (valid : ∀ c ∈ Op.claims ops, ∃ k, c.valid k = true)
+    (collisionFree : ∀ c₁ ∈ Op.claims ops, ∀ c₂ ∈ Op.claims ops, H c₁.path = H c₂.path → c₁.path = c₂.path) :
+    ∀ e, (run (fun c => H c.path) le {} ops).executed.getLast? = some e →
+      (run (fun c => H c.path) le {} ops).lastHeight = e.claim.blockHeight
+      ∧ ∀ v ∈ e.tallied, v.2.blockHeight = (run (fun c => H c.path) le {} ops).lastHeight := by
+  intro e he
+  have h1 : (run (fun c => H c.path) le {} ops).lastHeight = e.claim.blockHeight :=
+    heightInv_run attestTrySites (fun c => H c.path) le ops {} heightInv_init e he
+  refine ⟨h1, fun v hv => ?_⟩
+  rw [h1]
+  exact effect_blockHeight (executed_is_voted H le ops valid collisionFree e (List.mem_of_getLast? he) v hv)
+
 /-- with an injective hash (the path itself as the key) no assumption is left -/
 theorem executed_is_voted_ideal (le : Str → Str → Bool) (ops : List Op) (valid : ∀ c ∈ Op.claims ops, ∃ k, c.valid k = true) :
     ∀ e ∈ (run (fun c => c.path) le {} ops).executed, ∀ v ∈ e.tallied, v.2.effect = e.claim.effect :=
@@ -501,6 +527,250 @@ theorem retally_with_voter_claim_not_voted :
 /-- the call structure found in the source leaves the first attestation open in the same history -/
 example : (run (fun c => c.path) (fun _ _ => true) {} retallyOps).executed = [] := by decide +kernel
 
+/-! ## what the handlers READ is what the quorum voted for (round 3)
+
+`handlerView` (Gen/C03.lean, REGENERATED from x/crosschain/keeper on every run) lists every maximal expression through
+which a keeper function reads a claim of a concrete type — fields, and methods of the claim unfolded into
+x/crosschain/types down to the fields they read — together with the VALUES those expressions depend on.  A chain name
+that the code only uses as the index of `externalAddressRouter` (e.g. `GetSenderAddr() = ExternalAddrToHexAddr(m.ChainName,
+m.Sender)`) contributes its registered address class, not its spelling.  The claim's own `ChainName` is neither hashed nor
+compared with the chain the enclosing `MsgClaim` is routed to, so two voters of one attestation may name different chains;
+the theorems below show that they nevertheless name chains of one address class, and that every value a handler reads is
+the same whichever tallied voter's claim object it is handed. -/
+
+/-- what the handlers read is a function of the effect-relevant fields and of the address CLASS of the claim's chain name:
+no handler reads `BridgerAddress`, the spelling of `ChainName`, or `MsgBridgeTokenClaim.Name` (this is
+`handler_reads_hashed` made semantic: stated over the regenerated expressions, methods unfolded) -/
+theorem handler_view_of_effect (c₁ c₂ : AnyClaim) (he : c₁.effect = c₂.effect)
+    (hk : Go.chainClass chains c₁.chainName = Go.chainClass chains c₂.chainName) : c₁.handlerView = c₂.handlerView := by
+  cases c₁ <;> cases c₂ <;> simp only [AnyClaim.effect, reduceCtorEq, AnyClaim.stf.injEq, AnyClaim.bc.injEq,
+    AnyClaim.bcr.injEq, AnyClaim.ste.injEq, AnyClaim.bt.injEq, AnyClaim.osu.injEq] at he
+  all_goals
+    rename_i a b
+    cases a; cases b
+    simp_all [AnyClaim.handlerView, AnyClaim.chainName, MsgSendToFxClaim.effect, MsgBridgeCallClaim.effect,
+      MsgBridgeCallResultClaim.effect, MsgSendToExternalClaim.effect, MsgBridgeTokenClaim.effect,
+      MsgOracleSetUpdatedClaim.effect, MsgSendToFxClaim.handlerView, MsgBridgeCallClaim.handlerView,
+      MsgBridgeCallResultClaim.handlerView, MsgSendToExternalClaim.handlerView, MsgBridgeTokenClaim.handlerView,
+      MsgOracleSetUpdatedClaim.handlerView]
+
+/-- two claims that pass their own `ValidateBasic` and agree on the effect-relevant fields name chains of the same address
+class: every claim type carries an external address (sender / origin / token contract / first member), and a string is an
+address of at most one class -/
+theorem wellFormed_class_agree (c₁ c₂ : AnyClaim) (w₁ : c₁.wellFormed = true) (w₂ : c₂.wellFormed = true)
+    (he : c₁.effect = c₂.effect) : chainKind c₁.chainName = chainKind c₂.chainName := by
+  simp only [AnyClaim.wellFormed] at w₁ w₂
+  cases e₁ : chainKind c₁.chainName with
+  | none => rw [e₁] at w₁; exact absurd w₁ Bool.false_ne_true
+  | some k₁ =>
+  cases e₂ : chainKind c₂.chainName with
+  | none => rw [e₂] at w₂; exact absurd w₂ Bool.false_ne_true
+  | some k₂ =>
+  rw [e₁] at w₁; rw [e₂] at w₂
+  simp only at w₁ w₂
+  congr 1
+  cases c₁ <;> cases c₂ <;> simp only [AnyClaim.effect, reduceCtorEq, AnyClaim.stf.injEq, AnyClaim.bc.injEq,
+    AnyClaim.bcr.injEq, AnyClaim.ste.injEq, AnyClaim.bt.injEq, AnyClaim.osu.injEq] at he
+  · rename_i a b
+    simp only [AnyClaim.valid, MsgSendToFxClaim.valid, MsgSendToFxClaim.validGen, Bool.and_eq_true] at w₁ w₂
+    have e : a.Sender = b.Sender := by simpa [MsgSendToFxClaim.effect] using congrArg MsgSendToFxClaim.Sender he
+    exact isExtAddr_kind_unique w₁.1.1.1.1.1.1.2 (e ▸ w₂.1.1.1.1.1.1.2)
+  · rename_i a b
+    simp only [AnyClaim.valid, MsgBridgeCallClaim.valid, MsgBridgeCallClaim.validGen, Bool.and_eq_true] at w₁ w₂
+    have e : a.Sender = b.Sender := by simpa [MsgBridgeCallClaim.effect] using congrArg MsgBridgeCallClaim.Sender he
+    exact isExtAddr_kind_unique w₁.1.1.1.1.1.1.1.1.2 (e ▸ w₂.1.1.1.1.1.1.1.1.2)
+  · rename_i a b
+    simp only [AnyClaim.valid, MsgBridgeCallResultClaim.valid, MsgBridgeCallResultClaim.validGen, Bool.and_eq_true] at w₁ w₂
+    have e : a.TxOrigin = b.TxOrigin := by
+      simpa [MsgBridgeCallResultClaim.effect] using congrArg MsgBridgeCallResultClaim.TxOrigin he
+    exact isExtAddr_kind_unique w₁.1.2 (e ▸ w₂.1.2)
+  · rename_i a b
+    simp only [AnyClaim.valid, MsgSendToExternalClaim.valid, MsgSendToExternalClaim.validGen, Bool.and_eq_true] at w₁ w₂
+    have e : a.TokenContract = b.TokenContract := by
+      simpa [MsgSendToExternalClaim.effect] using congrArg MsgSendToExternalClaim.TokenContract he
+    exact isExtAddr_kind_unique w₁.1.1.1.2 (e ▸ w₂.1.1.1.2)
+  · rename_i a b
+    simp only [AnyClaim.valid, MsgBridgeTokenClaim.valid, MsgBridgeTokenClaim.validGen, Bool.and_eq_true] at w₁ w₂
+    have e : a.TokenContract = b.TokenContract := by
+      simpa [MsgBridgeTokenClaim.effect] using congrArg MsgBridgeTokenClaim.TokenContract he
+    exact isExtAddr_kind_unique w₁.1.1.1.1.1.1.1.2 (e ▸ w₂.1.1.1.1.1.1.1.2)
+  · rename_i a b
+    simp only [AnyClaim.valid, MsgOracleSetUpdatedClaim.valid, MsgOracleSetUpdatedClaim.validGen, Bool.and_eq_true] at w₁ w₂
+    have e : a.Members = b.Members := by
+      simpa [MsgOracleSetUpdatedClaim.effect] using congrArg MsgOracleSetUpdatedClaim.Members he
+    obtain ⟨⟨⟨⟨_, ne₁⟩, m₁⟩, _⟩, _⟩ := w₁
+    obtain ⟨⟨⟨⟨_, _⟩, m₂⟩, _⟩, _⟩ := w₂
+    rw [← e] at m₂
+    cases hm : a.Members with
+    | nil => simp [hm] at ne₁
+    | cons x r =>
+      simp only [hm, List.all_cons, Bool.and_eq_true] at m₁ m₂
+      exact isExtAddr_kind_unique m₁.1.1 m₂.1.1
+
+theorem valid_of_wellFormed {c : AnyClaim} (w : c.wellFormed = true) : ∃ k, c.valid k = true := by
+  simp only [AnyClaim.wellFormed] at w
+  split at w
+  · exact ⟨_, w⟩
+  · exact absurd w Bool.false_ne_true
+
+/-- **every value a handler reads of the executed claim is the one voted for**: two claims that pass their own
+`ValidateBasic` and have the same (regenerated) path present the same view to the handlers — for all field values of all
+six types, whatever chains the two claims name -/
+theorem handler_view_is_voted (c₁ c₂ : AnyClaim) (w₁ : c₁.wellFormed = true) (w₂ : c₂.wellFormed = true)
+    (h : c₁.path = c₂.path) : c₁.handlerView = c₂.handlerView := by
+  obtain ⟨k₁, v₁⟩ := valid_of_wellFormed w₁
+  obtain ⟨k₂, v₂⟩ := valid_of_wellFormed w₂
+  have he := anyClaim_path_injective k₁ k₂ c₁ c₂ v₁ v₂ h
+  exact handler_view_of_effect c₁ c₂ he (wellFormed_class_agree c₁ c₂ w₁ w₂ he)
+
+/-- over all histories: whenever the handler runs, every value it reads of the claim object it is given is the value the
+claim of EVERY tallied vote has in that place — the effect applied does not depend on which voter crossed the threshold -/
+theorem executed_view_is_voted {η : Type} [DecidableEq η] (H : Str → η) (le : η → η → Bool) (ops : List Op)
+    (wf : ∀ c ∈ Op.claims ops, c.wellFormed = true)
+    (collisionFree : ∀ c₁ ∈ Op.claims ops, ∀ c₂ ∈ Op.claims ops, H c₁.path = H c₂.path → c₁.path = c₂.path) :
+    ∀ e ∈ (run (fun c => H c.path) le {} ops).executed, ∀ v ∈ e.tallied, v.2.handlerView = e.claim.handlerView := by
+  intro e he v hv
+  have inv := inv_run attestTrySites attest_sites_well_keyed (fun c => H c.path) le (fun c => c ∈ Op.claims ops) ops {}
+    (inv_init _ _) (fun _ h => h)
+  obtain ⟨pe, hv'⟩ := inv.2 e he
+  obtain ⟨_, hk, pv⟩ := hv' v hv
+  exact handler_view_is_voted _ _ (wf _ pv) (wf _ pe) (collisionFree _ pv _ pe hk)
+
+/-- … and so is every value read of a claim that `ExecuteClaim` later runs from the pending store -/
+theorem ran_view_is_voted {η : Type} [DecidableEq η] (H : Str → η) (le : η → η → Bool) (ops : List Op)
+    (wf : ∀ c ∈ Op.claims ops, c.wellFormed = true)
+    (collisionFree : ∀ c₁ ∈ Op.claims ops, ∀ c₂ ∈ Op.claims ops, H c₁.path = H c₂.path → c₁.path = c₂.path) :
+    ∀ c ∈ (run (fun c => H c.path) le {} ops).ran,
+      ∃ e ∈ (run (fun c => H c.path) le {} ops).executed, e.claim = c ∧ ∀ v ∈ e.tallied, v.2.handlerView = c.handlerView := by
+  intro c hc
+  obtain ⟨e, he, hec⟩ := (pendInv_run attestTrySites (fun c => H c.path) le ops {} pendInv_init).2 c hc
+  exact ⟨e, he, hec, fun v hv => hec ▸ executed_view_is_voted H le ops wf collisionFree e he v hv⟩
+
+/-- no handler is handed the claim object in a way the translator cannot follow (an entry `.whole`) -/
+theorem handler_view_complete (c : AnyClaim) : ∀ e ∈ c.handlerView, ∀ l ∈ e.vals, ∀ w, l ≠ .whole w := by
+  cases c <;> simp [AnyClaim.handlerView, MsgSendToFxClaim.handlerView, MsgBridgeCallClaim.handlerView,
+    MsgBridgeCallResultClaim.handlerView, MsgSendToExternalClaim.handlerView, MsgBridgeTokenClaim.handlerView,
+    MsgOracleSetUpdatedClaim.handlerView]
+
+/-- … and every claim type is read by some handler (the view is not empty because the translator lost track) -/
+theorem handler_view_nonempty (c : AnyClaim) : c.handlerView ≠ [] := by
+  cases c <;> simp [AnyClaim.handlerView, MsgSendToFxClaim.handlerView, MsgBridgeCallClaim.handlerView,
+    MsgBridgeCallResultClaim.handlerView, MsgSendToExternalClaim.handlerView, MsgBridgeTokenClaim.handlerView,
+    MsgOracleSetUpdatedClaim.handlerView]
+
+/-- why `handler_view_is_voted` needs the claims' OWN `ValidateBasic` (`wellFormed`) and not just some class: a view that
+mentioned the spelling of the chain name would differ between two voters of one attestation — here the bridge call of
+`wCall` relayed under the names `eth` and `bsc` has one view (same class), while the raw names differ -/
+example : (AnyClaim.bc wCall).handlerView = (AnyClaim.bc { wCall with ChainName := "bsc".toList, BridgerAddress := ethB }).handlerView
+    ∧ (AnyClaim.bc wCall).chainName ≠ (AnyClaim.bc { wCall with ChainName := "bsc".toList }).chainName := by decide +kernel
+example : (AnyClaim.bc wCall).wellFormed = true ∧ (AnyClaim.bc { wCall with ChainName := "bsc".toList }).wellFormed = true
+    ∧ (AnyClaim.bc { wCall with ChainName := "nochain".toList }).wellFormed = false
+    ∧ (AnyClaim.bc { wCall with ChainName := "tron".toList }).wellFormed = false := by decide +kernel
+/-- the view is not constant: another memo is another view -/
+example : (AnyClaim.bc wCall).handlerView ≠ (AnyClaim.bc { wCall with Memo := memoSendCallTo }).handlerView := by decide +kernel
+
+/-! ## a handler's WRITES are the voted ones: `AddBridgeTokenExecuted`, interpreted from its regenerated statement list
+
+`addBridgeTokenProg` (Gen/C03.lean) is the body of `Keeper.AddBridgeTokenExecuted`, statement by statement; `runProg`
+(Model/C03Prog.lean) gives it its meaning on a bridge-denom store.  This is the handler whose stored effect depends on a
+voted field in a non-obvious way: `Symbol` matters only through `== "FX"` (the contract becomes the bridge token of the
+native coin), `Decimals` only then, `TokenContract` and the keeper's module name through `NewBridgeDenom`. -/
+
+/-- the translator recognised every statement, and both store helpers use one key function -/
+theorem bridgeToken_prog_modelled :
+    addBridgeTokenProg.all HLine.modelled = true ∧ addBridgeTokenStoreKey = "GetBridgeDenomKey" := by decide
+
+/-- the program mentions no claim field outside the handler view (`TokenContract`, `Symbol`; `Decimals`) -/
+theorem bridgeToken_prog_fields :
+    (progStrFields addBridgeTokenProg).all (["TokenContract", "Symbol"].contains ·) = true
+    ∧ (progNatFields addBridgeTokenProg).all (["Decimals"].contains ·) = true := by decide
+
+/-- for every module name and every store: what the handler writes (or that it fails) is determined by the handler view —
+so by `handler_view_is_voted` it is the same for the claim objects of all voters of one attestation -/
+theorem bridgeToken_handler_of_view (m : Str) (st : List (Str × Str)) (c₁ c₂ : MsgBridgeTokenClaim)
+    (h : c₁.handlerView = c₂.handlerView) : runAddBridgeToken m st c₁ = runAddBridgeToken m st c₂ := by
+  simp only [MsgBridgeTokenClaim.handlerView, List.cons.injEq, HEntry.mk.injEq, HLeaf.str.injEq, HLeaf.nat.injEq,
+    true_and, and_true] at h
+  obtain ⟨hd, hs, ht⟩ := h
+  apply runProg_congr
+  · intro f hf
+    have := List.all_eq_true.1 bridgeToken_prog_fields.1 f hf
+    simp only [List.contains_cons, List.contains_nil, Bool.or_false, Bool.or_eq_true, beq_iff_eq] at this
+    rcases this with rfl | rfl <;> simp [MsgBridgeTokenClaim.fieldEnv, hs, ht]
+  · intro f hf
+    have := List.all_eq_true.1 bridgeToken_prog_fields.2 f hf
+    simp only [List.contains_cons, List.contains_nil, Bool.or_false, beq_iff_eq] at this
+    subst this
+    simp [MsgBridgeTokenClaim.fieldEnv, hd]
+
+/-- the writes of the handlers the model interprets (so far: `AddBridgeTokenExecuted`), for a claim of any type -/
+def immediateEffect (m : Str) (st : List (Str × Str)) : AnyClaim → Option HRes
+  | .bt c => some (runAddBridgeToken m st c)
+  | _ => none
+
+/-- over all histories: on every keeper and every store, executing the claim object the handler was given writes exactly
+what executing the claim of ANY tallied vote would have written -/
+theorem executed_writes_are_voted {η : Type} [DecidableEq η] (H : Str → η) (le : η → η → Bool) (ops : List Op)
+    (wf : ∀ c ∈ Op.claims ops, c.wellFormed = true)
+    (collisionFree : ∀ c₁ ∈ Op.claims ops, ∀ c₂ ∈ Op.claims ops, H c₁.path = H c₂.path → c₁.path = c₂.path)
+    (m : Str) (st : List (Str × Str)) :
+    ∀ e ∈ (run (fun c => H c.path) le {} ops).executed, ∀ v ∈ e.tallied,
+      immediateEffect m st v.2 = immediateEffect m st e.claim := by
+  intro e he v hv
+  have hview := executed_view_is_voted H le ops wf collisionFree e he v hv
+  have heff := executed_is_voted H le ops (fun c hc => valid_of_wellFormed (wf c hc)) collisionFree e he v hv
+  cases hc : e.claim <;> cases hw : v.2 <;> rw [hc, hw] at hview heff <;>
+    simp only [AnyClaim.effect, reduceCtorEq] at heff <;> simp only [immediateEffect]
+  rename_i a b
+  exact congrArg some (bridgeToken_handler_of_view m st b a hview)
+
+/-- `Symbol == "FX"` with 18 decimals: the contract becomes the bridge token of the native coin (two entries) -/
+example : runAddBridgeToken "eth".toList [] wToken
+    = .ok [("eth".toList ++ ethA, "FX".toList), ("FX".toList, "eth".toList ++ ethA)] := by decide +kernel
+/-- any other symbol: an ordinary bridge token -/
+example : runAddBridgeToken "eth".toList [] { wToken with Name := "A".toList, Symbol := "FX/FX".toList }
+    = .ok [("eth".toList ++ ethA, "eth".toList ++ ethA)] := by decide +kernel
+/-- already registered / `FX` with other decimals: an error, nothing is written -/
+example : runAddBridgeToken "eth".toList [("eth".toList ++ ethA, "x".toList)] wToken = .err := by decide +kernel
+example : runAddBridgeToken "eth".toList [] { wToken with Decimals := 6 } = .err := by decide +kernel
+/-- the module name matters (it is the keeper's, not the claim's `ChainName`) -/
+example : runAddBridgeToken "bsc".toList [] wToken ≠ runAddBridgeToken "eth".toList [] wToken := by decide +kernel
+
+/-! ## the store keys (round 3): `GetAttestationKey` / `GetPendingExecuteClaimKey` byte layouts, regenerated from key.go
+
+The attestation model files votes under the PAIR (event nonce, claim hash); the code files them under the byte string
+`GetAttestationKey(nonce, hash)`.  The two are the same thing: the regenerated layout is injective in both arguments
+(fixed-width big-endian nonce between a constant prefix and the hash), so votes share a stored attestation iff nonce and
+hash agree — `sameKey` of the model. -/
+
+theorem attestationKey_injective (n₁ n₂ : Nat) (h₁ h₂ : List Nat) (b₁ : n₁ < 2^64) (b₂ : n₂ < 2^64)
+    (h : keyBytes n₁ h₁ attestationKeyParts = keyBytes n₂ h₂ attestationKeyParts) : n₁ = n₂ ∧ h₁ = h₂ := by
+  simp only [attestationKeyParts, keyBytes, List.append_nil, List.cons_append, List.nil_append, List.cons.injEq, true_and] at h
+  obtain ⟨e₁, e₂⟩ := append_inj_of_length (by simp [be64_length]) h
+  exact ⟨be64_inj b₁ b₂ e₁, e₂⟩
+
+/-- the pending-execute-claim store is keyed by the event nonce alone, injectively -/
+theorem pendingClaimKey_injective (n₁ n₂ : Nat) (b₁ : n₁ < 2^64) (b₂ : n₂ < 2^64)
+    (h : keyBytes n₁ [] pendingClaimKeyParts = keyBytes n₂ [] pendingClaimKeyParts) : n₁ = n₂ := by
+  simp only [pendingClaimKeyParts, keyBytes, List.append_nil, List.cons_append, List.nil_append, List.cons.injEq, true_and] at h
+  exact be64_inj b₁ b₂ h
+
+/-- … so the model's keying of the attestation table by (nonce, hash) is the code's keying by key bytes -/
+theorem sameKey_iff_keyBytes (n : Nat) (h : List Nat) (a : Att (List Nat)) (b₁ : n < 2^64) (b₂ : a.nonce < 2^64) :
+    sameKey n h a = true ↔ keyBytes a.nonce a.hash attestationKeyParts = keyBytes n h attestationKeyParts := by
+  constructor
+  · intro hs
+    simp only [sameKey, Bool.and_eq_true, beq_iff_eq] at hs
+    rw [hs.1, hs.2]
+  · intro hk
+    obtain ⟨e₁, e₂⟩ := attestationKey_injective _ _ _ _ b₂ b₁ hk
+    simp [sameKey, e₁, e₂]
+
+example : keyBytes 258 [170, 187] attestationKeyParts = [23, 0, 0, 0, 0, 0, 0, 1, 2, 170, 187] := by decide
+example : keyBytes 258 [] pendingClaimKeyParts = [84, 0, 0, 0, 0, 0, 0, 1, 2] := by decide
+/-- the bound matters: `uint64` wraps -/
+example : keyBytes (2^64) [] pendingClaimKeyParts = keyBytes 0 [] pendingClaimKeyParts := by decide
+
 /-! ## non-vacuity: the hypotheses are satisfiable, and the generated paths separate the recorded witnesses -/
 
 example : wCall.valid .eth = true ∧ wResult.valid .eth = true ∧ wToken.valid .eth = true := by decide
@@ -523,6 +793,11 @@ example : ((run (fun c => c.path) (fun _ _ => true) {} (legacyOps ++ [.vote 2 (.
 /-- … is stored for `ExecuteClaim`, which then runs exactly that claim -/
 example : (run (fun c => c.path) (fun _ _ => true) {} (legacyOps ++ [.vote 2 (.bc wCall) false])).pending.map (·.1) = [1] := by decide +kernel
 example : (run (fun c => c.path) (fun _ _ => true) {} (legacyOps ++ [.vote 2 (.bc wCall) false, .execute 1 false])).ran = [.bc wCall] := by
+  decide +kernel
+
+/-- the recorded height after the three votes of `legacyOps` + oracle 2 is the voted one -/
+example : (run (fun c => c.path) (fun _ _ => true) {} (legacyOps ++ [.vote 2 (.bc wCall) false])).lastHeight = 1
+    ∧ (run (fun c => c.path) (fun _ _ => true) {} (legacyOps ++ [.vote 2 (.bc { wCall with BlockHeight := 7 }) false])).lastHeight = 0 := by
   decide +kernel
 
 end FxVerif.Props.C03
